@@ -698,3 +698,77 @@ def rule_promote(ctx) -> RuleResult:
     if n_sites < 4:
         raise AnalysisError(f"R-PROMOTE: {n_sites} integer promotion sites found (hand-confirmed: 4)")
     return res
+
+
+# ---------------------------------------------------------------------------------------------
+def rule_varshift(ctx) -> RuleResult:
+    res = RuleResult("R-VARSHIFT", "the variance wrapper widens unsigned input to a signed dtype *before* it subtracts the per-group first element",
+                     min_instances=2)
+    f = ctx.prog.func("aggregate_npg._var_std_wrapper")
+    arr = f.params[1]
+    cfg = CFG(f)
+    # (1) the subtraction's left operand: every reaching definition of the array variable is the cast
+    # the variable holding the per-group first element
+    firsts = {t.id for n in cfg.nodes if n.kind == "stmt" and isinstance(n.ast, ast.Assign) and "nanfirst" in norm(n.ast.value) or
+              (n.kind == "stmt" and isinstance(n.ast, ast.Assign) and "'first'" in norm(n.ast.value))
+              for t in n.ast.targets if isinstance(t, ast.Name)}
+    subs = []
+    for n in cfg.nodes:
+        if n.kind != "stmt" or n.ast is None:
+            continue
+        for x in ast.walk(n.ast):
+            if isinstance(x, ast.BinOp) and isinstance(x.op, ast.Sub) and names_in(x.right) & firsts and isinstance(x.left, ast.Name):
+                subs.append((n, x.left.id, x))
+            if isinstance(x, ast.AugAssign) and isinstance(x.op, ast.Sub) and names_in(x.value) & firsts and isinstance(x.target, ast.Name):
+                subs.append((n, x.target.id, x))
+    if not subs:
+        res.notes.append("UNDECIDED: _var_std_wrapper no longer shifts by the first element (no subtraction found); rule template does not apply")
+        res.inst("no shift")
+        res.inst("no shift (2)")
+        return res
+    casts = [n for n in cfg.nodes if n.kind == "stmt" and isinstance(n.ast, ast.Assign) and isinstance(n.ast.value, ast.Call)
+             and isinstance(n.ast.value.func, ast.Attribute) and n.ast.value.func.attr == "astype"
+             and isinstance(n.ast.value.func.value, ast.Name)]
+    for sub, lname, expr in subs:
+        def is_cast_of_left(n):
+            return n in casts and n is not sub and any(norm(t) == lname for t in n.ast.targets) and norm(n.ast.value.func.value) == lname
+        prev = {cfg.entry.id: None}
+        work = [cfg.entry.id]
+        reached_uncast = False
+        while work:
+            i = work.pop()
+            n = cfg.nodes[i]
+            if n is sub:
+                reached_uncast = True
+                break
+            if is_cast_of_left(n):
+                continue
+            for s_, lab in n.succ:
+                if s_ not in prev:
+                    prev[s_] = i
+                    work.append(s_)
+        res.inst(f"_var_std_wrapper: {norm(expr)[:60]}: left operand {lname} is cast on every path before the subtraction: {not reached_uncast}", "order")
+        if reached_uncast:
+            res.report("aggregate_npg._var_std_wrapper|subtract-before-cast", f.where(sub.ast), f.qualname,
+                       f"{norm(expr)[:70]} can run on the un-widened input: for unsigned data the difference wraps modulo 2**bits before any cast "
+                       "(members smaller than the group's first element become huge), so eager var/std are wrong by orders of magnitude")
+    casts = [n for n in cfg.nodes if n.kind == "stmt" and isinstance(n.ast, ast.Assign) and any(
+        isinstance(x, ast.Call) and isinstance(x.func, ast.Attribute) and x.func.attr == "astype" for x in ast.walk(n.ast.value))]
+    # (2) the cast dtype is computed with a NumPy *signed scalar*, not a bare Python int (weak scalars do not promote unsigned dtypes)
+    for c in casts:
+        ac = next(x for x in ast.walk(c.ast.value) if isinstance(x, ast.Call) and isinstance(x.func, ast.Attribute) and x.func.attr == "astype")
+        dt = ac.args[0] if ac.args else None
+        src = dt
+        if isinstance(dt, ast.Name):
+            for n in cfg.nodes:
+                if n.kind == "stmt" and isinstance(n.ast, ast.Assign) and any(norm(t) == dt.id for t in n.ast.targets):
+                    src = n.ast.value
+        txt = norm(src) if src is not None else ""
+        signed_scalar = any(isinstance(x, ast.Call) and norm(x.func) in ("np.int8", "np.int16", "np.int32", "np.int64", "np.int_", "np.intp")
+                            for x in ast.walk(src)) if src is not None else False
+        res.inst(f"_var_std_wrapper: cast dtype = {txt[:70]}: promotes against a NumPy signed scalar: {signed_scalar}", "dtype")
+        if "result_type" in txt and not signed_scalar:
+            res.report("aggregate_npg._var_std_wrapper|weak-scalar-promotion", f.where(c.ast), f.qualname,
+                       f"cast dtype {txt[:70]} promotes against a bare Python number: under NumPy 2 weak-scalar rules an unsigned dtype stays unsigned, "
+                       "so the shift by the first element wraps for unsigned data")
+    return res
